@@ -19,6 +19,7 @@ META = dict(
     level_note="Trusted: TLC, the Go runtime, the reading of the TS 24.501 layouts summarised in DESIGN.md Appendix A. Domain: SST 0..255, SD absent or 6 hex digits, 1..16 TAIs / TACs, DNN of 1..100 ASCII characters taken as the octets of the DNN value; other inputs give no verdict (counted). A possibly non-terminating LadnToModels input is run in a self-limiting child process.",
 )
 
+INPUT_KEYS = ("w", "sn", "sn2", "tai", "areas", "k", "dnn")
 W = int(os.environ.get("VERIF_WORKERS", "0")) or None
 SH = int(os.environ.get("VERIF_SHARDS", "0")) or 8
 
@@ -43,6 +44,8 @@ def describe(e):
     if e.get("osn"): o.append("snssai=" + repr([(m["sst"], text(m["sd"]), m["h"], m["hsst"], text(m["hsd"])) for m in e["osn"]]))
     if e.get("odnn"): o.append("dnn=" + repr([text(d) for d in e["odnn"]]))
     if e.get("on"): o.append("n=%s" % e["on"])
+    if "hob" in e and (e["hob"], e["hosn"], e["hodnn"], e["hon"]) != (e["ob"], e["osn"], e["odnn"], e["on"]):
+        o.append("BUT READ AGAIN after %s later calls: octets=%s snssai=%r dnn=%r n=%s" % (e.get("hc"), bytes(e["hob"]).hex(), e["hosn"], [text(d) for d in e["hodnn"]], e["hon"]))
     s = "%s(%s) -> %s" % (e["op"], ", ".join(i), ", ".join(o) or "nothing")
     return s if len(s) < 700 else s[:700] + "..."
 
@@ -98,15 +101,28 @@ def run(c):
             return None
         e = ev_of(idx)
         obj = dict(event=e, how="harness/cmd/arealists redo <event.json> <out.ndjson>, then validate out.ndjson with spec/trace/Trace_C13.tla")
+        if cls == "result-changed-after-return":
+            obj["then_call"] = partner(idx)
+            obj["how"] = "harness/cmd/arealists redo <file holding the JSON array [event] + then_call> <out.ndjson>; validate out.ndjson with spec/trace/Trace_C13.tla (first line)"
         return (op, cls, describe(e) + " does not satisfy AreaLists.tla (%s)" % cls, obj)
+
+    def partner(idx):
+        """a later (else earlier) event of the same function with different arguments: run after the repeated call while its result is held"""
+        e = ev_of(idx)
+        def inp(x): return {k: v for k, v in x.items() if k in INPUT_KEYS}
+        for j in list(range(idx + 1, min(idx + 400, len(events)))) + list(range(idx - 1, max(idx - 400, -1), -1)):
+            if ('"op":"%s"' % e["op"]) in events[j][:60]:
+                o = json.loads(events[j])
+                if inp(o) != inp(e) and not o.get("hang"): return [o]
+        return []
 
     def confirm(idx, t):
         e = ev_of(idx)
-        pe = os.path.join(c.scratch, "one.json"); json.dump(e, open(pe, "w"))
+        pe = os.path.join(c.scratch, "one.json"); json.dump([e] + (partner(idx) if e["op"] != "Digest" else []), open(pe, "w"))
         po = os.path.join(c.scratch, "one.ndjson")
         c.run_driver(drv, ["redo", pe, po])
         again = validate_small(read_ndjson(po))
-        return any(tt[3] == t[3] for _, tt in again)
+        return any(i == 0 and tt[3] == t[3] for i, tt in again)
     seen = c.triage(mism, classify, confirm, per_class=2, total=16)
     # the hang of LadnToModels, observed in the child process (information: which inputs did not return)
     hangs = [json.loads(x) for x in events if '"hang":true' in x]
